@@ -62,6 +62,11 @@ OBLIGATIONS = [
     "SkVerif.C15.nested_to_long_reserved_name_rejected",
     "SkVerif.C15.nested_to_long_reserved_witness",
     "SkVerif.C15.arr3_nested_duplicate_names_drop_columns",
+    "SkVerif.C15.mi_keys_spec",
+    "SkVerif.C15.mi_columns_spec",
+    "SkVerif.C15.long_rows_keys_nodup",
+    "SkVerif.C15.path5_preserves_panel",
+    "SkVerif.C15.path5_independence",
 ]
 TRUSTED = [
     "hand-written model SkVerif/Model/Panel.lean of data_processing.py / check_X: pandas and numpy primitives (np.stack, reshape, swapaxes, "
@@ -76,11 +81,21 @@ ASSUMPTIONS = [
     "Series cells are unnamed or named by their column (what sktime's converters produce); other Series names are exercised by the oracle only (not modelled)",
 ]
 RULE = ("exhaustive small scope: shapes (1..3)x(1..3)x(1..4) x name sets (default / str / str-unsorted / int) x start container (5 kinds) x every type-correct "
-        "conversion path of length <= 3 with seeded options (quick: seed-rotated 1/10 slice); random larger panels (up to 8 x 13 x 12, paths <= 4); "
+        "conversion path of length <= 3 with seeded options (quick: seed-rotated 1/6 slice; thorough: all, two draws of the options each); random larger panels (up to 8 x 13 x 12, paths <= 4); "
         "mixed primitive frames; malformed stream (2-D arrays, wrong / missing level names, wrong-length / duplicate / reserved names, shuffled / duplicated / "
         "wrong-named long tables, ragged cells); check_X flag grid. distinct by driver line; non-trivial = at least one conversion returned a container")
 LEVEL_TEXT = "proof"
-LEVEL_NOTE = ""
+LEVEL_NOTE = ("Proved for the model, for all shapes n,c>=1 (t>=1 where a multi-index frame / long table is involved), all value types and all pairwise distinct names: "
+              "every single converter maps the canonical container of a panel to the canonical container of the panel the property predicts; hence all round trips, "
+              "path independence for paths of ANY length over all five containers (path5_preserves_panel / path5_independence), the name rule (kept while every container "
+              "carries names, var_i after a 3-D array), the long table's sort-by-identifier with every identifier keeping its data, row-order independence of "
+              "from_long_to_nested, the nestedness predicates, check_X coercions. "
+              "Defects of the code kept in the model and proved as such (negation at a witness + _partial theorem): from_long_to_nested relabels by position after sorting "
+              "(names lost / data under another variable's name), from_2d_array_to_nested(cells_as_numpy=True) always raises, reserved names break from_nested_to_long, "
+              "duplicate names drop columns in from_3d_numpy_to_nested. "
+              "Only observed by the correspondence (no theorem): the mixed primitive/nested branch (ffill) of from_nested_to_multi_index / from_nested_to_3d_numpy, error kinds on "
+              "malformed arguments, 2-D numpy input to the 3-D converters. Not modelled: Series cells carrying a name (oracle only; a further defect is reported), non-default "
+              "row / time indexes, NaN-producing ragged frames, duplicate instance labels.")
 TECHNIQUE = "Lean 4 theorems about an executable model + differential correspondence with the real converters + property oracle"
 
 OUT = {"n3": "A", "3n": "N", "3m": "M", "m3": "A", "nm": "M", "mn": "N", "nl": "L", "ln": "N", "n2": "T", "32": "T", "2n": "N"}
@@ -854,14 +869,15 @@ def gen_small(tier, rng, cases):
     shapes = [(n, c, t) for n in (1, 2, 3) for c in (1, 2, 3) for t in (1, 2, 3, 4)]
     namekinds = ["default", "str", "str-unsorted", "int"]
     starts = ["A", "N", "M", "L", "T"]
-    rot = rng.randrange(10)
+    rot = rng.randrange(6)
     idx = 0
+    reps = 1 if tier == "quick" else 2          # thorough: two independent draws of the options per path
     for (n, c, t) in shapes:
         for nk in namekinds:
             for sk in starts:
-                for ops in op_paths(sk, 3):
+                for ops in op_paths(sk, 3) * reps:
                     idx += 1
-                    if tier == "quick" and (idx + rot) % 10 != 0:
+                    if tier == "quick" and (idx + rot) % 6 != 0:
                         continue
                     vals = mk_vals(rng, n, c, t)
                     names = mk_names(rng, c, nk)
@@ -873,7 +889,7 @@ def gen_small(tier, rng, cases):
 
 
 def gen_random(tier, rng, cases):
-    nr = 250 if tier == "quick" else 2500
+    nr = 400 if tier == "quick" else 5000
     for _ in range(nr):
         n = rng.choice([1, 1, 2, 3, 4, 5, 8])
         c = rng.choice([1, 2, 3, 4, 5, 7, 11, 12, 13])
